@@ -235,3 +235,66 @@ def run(ctx):
             both = ("get_successors_map" in wcal or "get_successor_nodes" in wcal or "get_out_edges_for_node" in wcal) and ("get_predecessors_map" in wcal or "get_predecessor_nodes" in wcal or "get_in_edges_for_node" in wcal)
             alle = bool(wcal & {"get_all_edges", "get_edges_for_node"})
             ctx.require(both or alle, "R-C13-6", "both-directions", "the neighbour-community weights are built from outgoing and incoming edges", "the neighbour-community weights are built from %s only: on a directed graph the incoming edges of a node are ignored, the maximised quantity is not the modularity change and the local-move loop has no monotone potential (it can run forever, e.g. on two directed 3-cycles joined by one edge)" % sorted(wcal & {"get_successors_map", "get_predecessors_map", "get_successor_nodes", "get_predecessor_nodes"}), loc_str(t.span))
+
+    # ------------------------------------------------------------------ R-C13-7
+    # Bookkeeping of the community totals is conservative: while a node is being evaluated its degree is taken out
+    # of its community's total and afterwards put into the chosen community's total -- the SAME amount.  If the two
+    # amounts have different provenance (one scaled, one not), every visit shifts the totals, the gains are computed
+    # from drifting totals and modularity can decrease from one level to the next.
+    ctx.rule("R-C13-7", "community totals: the amount added back by add_degree_to_best_com has the provenance of the amount subtract_degree_from_best_com took out")
+    sub = prog.one("louvain::subtract_degree_from_best_com")
+    add = prog.one("louvain::add_degree_to_best_com")
+    PAIRS = {"stot": "degree", "stot_in": "in_degree", "stot_out": "out_degree"}
+
+    def srcs(f_, reads):
+        out = set()
+        for n in f_.slice_local(reads, data_only=True):
+            if n[0] == "SRC" and n[2]:
+                fs = [x for x in n[2] if x != "*" and not str(x).startswith("[")]
+                if fs:
+                    out.add(str(fs[-1]))
+        return out
+
+    def amounts(body, op_name):
+        """{total field: provenance of the amount combined into it with `op_name`}, {cached field: provenance}"""
+        f_ = flows.of(body)
+        tot = {}
+        cached = {}
+        for st in body.stmts():
+            if st.k != "assign" or not st.lhs.has_deref():
+                continue
+            lf = st.lhs.fields()
+            if lf and lf[-1] in PAIRS.values() and st.rv.ops:
+                cached.setdefault(lf[-1], set()).update(srcs(f_, f_._op_reads(st.rv.ops[0])))
+                continue
+            if st.rv.k == "binop" and st.rv.j["op"] in (op_name, op_name + "Unchecked") and st.lhs.ty == "f64":
+                fields = set()
+                for o in f_.resolve(st.lhs):
+                    if o[0] == "P" and len(o) > 2:
+                        fields |= {str(x) for x in o[2] if x != "*"}
+                for tf in PAIRS:
+                    if tf in fields:
+                        tot.setdefault(tf, set()).update(srcs(f_, f_._op_reads(st.rv.ops[1])))
+        return tot, cached
+
+    sub_tot, sub_cached = amounts(sub, "Sub")
+    add_tot, _ = amounts(add, "Add")
+    n_pairs = 0
+    for tf, cf_ in sorted(PAIRS.items()):
+        if tf not in sub_tot or tf not in add_tot:
+            continue
+        n_pairs += 1
+
+        def expand(s_):
+            out = set()
+            for x in s_:
+                if x in sub_cached:
+                    out |= sub_cached[x]
+                else:
+                    out.add(x)
+            return out
+
+        taken = expand(sub_tot[tf])
+        given = expand(add_tot[tf])
+        ctx.require(taken == given, "R-C13-7", "conserve|" + tf, "what is added to `%s` is what was taken out of it (provenance %s)" % (tf, sorted(taken)), "`%s`: the amount taken out derives from %s but the amount put back derives from %s -- the totals drift with every visit of a node (e.g. with resolution != 1), so gains are computed from wrong totals and modularity can decrease between levels" % (tf, sorted(taken), sorted(given)), loc_str(add.span))
+    ctx.floor("R-C13-7", "total_fields", n_pairs, 2)
